@@ -427,7 +427,11 @@ def c16_e2e(run, pid):
     end = json.loads(lines[-1])
     if end.get("panics", 0):
         direct_violation(run, pid, "listenerPanicsUnderFlood", "a task of the DNS service panicked during the flood", {"trace": tf})
-    return {"events": len(lines), "refused_received": rep["stats"]["granted"], "queries": rep["stats"]["reqs"], "quiet_sources": rep["stats"]["quiet"]}
+    floods = [json.loads(l) for l in lines if '"ev":"cookie_flood"' in l]
+    if not floods:
+        run.notes.append("the listener issued no server cookie: the cookie exemption was not exercised at service level")
+    return {"events": len(lines), "refused_received": rep["stats"]["granted"], "queries": rep["stats"]["reqs"], "quiet_sources": rep["stats"]["quiet"],
+            "cookie_floods": {f["kind"]: [f["answered"], f["sent"]] for f in floods}}
 
 
 # ------------------------------------------------------------------ C06 ----
